@@ -159,6 +159,8 @@ func c20ErrName(err error) string {
 		return "rand"
 	case strings.Contains(err.Error(), "unreplayable"):
 		return "unreplayable-body"
+	case strings.Contains(err.Error(), "invalid header field value"):
+		return "invalid-header" // the transport refuses a field value with a control byte; nothing is sent
 	}
 	return "other"
 }
@@ -458,6 +460,143 @@ type c20Chal struct {
 	is   c20Issued
 	raw  string
 	tags map[string]bool
+	// header level (c20GenHeader): the field lines, every Digest challenge in them in order, and
+	// whether the text is expected to be refused as a whole (duplicate parameter, bad charset)
+	lines  []string
+	all    []c20Issued
+	broken bool
+	// loose: the text uses white space that is not OWS of RFC 7230 (VT, FF, CR, LF, Unicode
+	// spaces; the code as found trimmed them with strings.TrimSpace): answering and refusing
+	// are both in order
+	loose  bool
+	isLine int // index of the field line that carries the challenge `is`
+}
+
+// c20Answerable is the oracle's own reading of "a challenge the client can answer": a registered
+// algorithm (RFC 7616 section 6.1), no qop or a qop list offering "auth", and not a -sess
+// algorithm without qop (its cnonce could not be transmitted).
+func c20Answerable(is c20Issued) bool {
+	alg := ""
+	if is.algorithm != nil {
+		alg = *is.algorithm
+	}
+	if _, ok := c20SpecTag(alg); !ok {
+		return false
+	}
+	if is.qops == nil {
+		return !strings.HasSuffix(alg, "-sess")
+	}
+	for _, q := range is.qops {
+		if q == "auth" {
+			return true
+		}
+	}
+	return false
+}
+
+// c20QuoteX writes a quoted-string with gratuitous quoted-pairs (any byte may be escaped).
+func c20QuoteX(r *rand.Rand, v string) string {
+	var b strings.Builder
+	b.WriteByte('"')
+	for i := 0; i < len(v); i++ {
+		if v[i] == '"' || v[i] == '\\' || r.Intn(6) == 0 {
+			b.WriteByte('\\')
+		}
+		b.WriteByte(v[i])
+	}
+	b.WriteByte('"')
+	return b.String()
+}
+
+var c20OtherChallenges = []string{`Basic realm="x"`, `Basic realm="a, b", charset="UTF-8"`, "Bearer", "Negotiate", "NTLM", "negotiate", "Negotiate YIIB6wYGKwYBBQUCoIIB3zCCAdugMDAuBgkqhkiC9xIBAgI=",
+	"NTLM TlRMTVNTUAACAAAAAAAAACgAAAABggAAU3J2Tm9uY2UAAAAAAAAAAA==", `Newauth realm="apps", type=1, title="Login to \"apps\""`,
+	`Bearer realm="example", error="invalid_token", error_description="The access token expired"`, `Basic realm = "bws" , charset = UTF-8`,
+	`Hoba realm=x`, `Mutual realm="m", algorithm="iso-kam3-dl-2048-sha256", version=1, validated="host"`}
+
+// c20GenHeader builds what an RFC 7235 server may put into the WWW-Authenticate field(s) of a
+// 401: one to three challenges (Digest ones from c20GenChallenge; Basic, Bearer, Negotiate/NTLM
+// with and without token68, schemes with quoted commas and quoted-pairs), in one field line or
+// spread over several, with empty list elements. is = the first Digest challenge the oracle
+// considers answerable (RFC 7616 section 3.7), all = every Digest challenge in order.
+func c20GenHeader(r *rand.Rand, wire bool) c20Chal {
+	n := 1
+	switch k := r.Intn(10); {
+	case k >= 8:
+		n = 3
+	case k >= 6:
+		n = 2
+	}
+	out := c20Chal{tags: map[string]bool{}}
+	var texts []string
+	single := ""
+	ansIdx := -1
+	digest := r.Intn(n) // at least one Digest challenge
+	answered := false
+	for i := 0; i < n; i++ {
+		if i == digest || r.Intn(3) == 0 {
+			g := c20GenChallenge(r, wire)
+			for t := range g.tags {
+				out.tags[t] = true
+			}
+			out.all = append(out.all, g.is)
+			if g.broken {
+				out.broken = true
+			}
+			if g.loose {
+				out.loose = true
+			}
+			if !answered && c20Answerable(g.is) {
+				out.is, answered = g.is, true
+				ansIdx = i
+			}
+			texts = append(texts, strings.Trim(g.raw, " \t\r\n"))
+			single = g.raw
+		} else {
+			texts = append(texts, verifh.Pick(r, c20OtherChallenges))
+			out.tags["other-scheme"] = true
+		}
+	}
+	if len(out.all) > 1 {
+		out.tags["several-digest"] = true
+	}
+	if !answered {
+		out.is = out.all[0]
+	}
+	if n > 1 {
+		out.tags["multi"] = true
+	}
+	// lay the challenges out in field lines
+	cur := ""
+	for i, t := range texts {
+		if i > 0 && r.Intn(2) == 0 {
+			out.lines = append(out.lines, cur)
+			cur = ""
+			out.tags["multi-line"] = true
+		}
+		if cur != "" {
+			cur += verifh.Pick(r, []string{", ", ",", " , ", ", , ", ",\t"})
+		}
+		cur += t
+		if i == ansIdx {
+			out.isLine = len(out.lines)
+		}
+	}
+	out.lines = append(out.lines, cur)
+	if r.Intn(12) == 0 {
+		i := r.Intn(len(out.lines))
+		out.lines[i] = verifh.Pick(r, []string{", ", ",", " ,, "}) + out.lines[i]
+		out.tags["empty-elem"] = true
+	}
+	if r.Intn(12) == 0 {
+		i := r.Intn(len(out.lines))
+		out.lines[i] += verifh.Pick(r, []string{",", " ,", ", ,"})
+		out.tags["empty-elem"] = true
+	}
+	if n == 1 && len(out.lines) == 1 && !out.tags["empty-elem"] {
+		out.lines[0] = single // a single challenge keeps its outer white space
+	}
+	out.raw = strings.Join(out.lines, ", ")
+	return out
 }
 
 func c20Quote(v string) string {
@@ -544,10 +683,13 @@ func c20GenChallenge(r *rand.Rand, wire bool) c20Chal {
 	if c.is.qops != nil {
 		sep := ","
 		if len(c.is.qops) > 1 {
-			sep = verifh.Pick(r, []string{",", ", ", " , "})
+			sep = verifh.Pick(r, []string{",", ", ", " , ", ",\t", " ,", ",  "})
 			tag("quoted-comma")
 		}
 		v := strings.Join(c.is.qops, sep)
+		if len(c.is.qops) > 1 && r.Intn(5) == 0 {
+			v = verifh.Pick(r, []string{" ", "\t", ""}) + v + verifh.Pick(r, []string{" ", "", ","})
+		}
 		q := true
 		if len(c.is.qops) == 1 && r.Intn(4) == 0 {
 			q = false
@@ -587,10 +729,32 @@ func c20GenChallenge(r *rand.Rand, wire bool) c20Chal {
 		cs := verifh.Pick(r, []string{"UTF-8", "utf-8", "Utf-8", "ISO-8859-1", "UTF-16", "ıtf-8"})
 		ps = append(ps, c20Param{"charset", cs, r.Intn(3) == 0 || !c20IsToken(cs)})
 		tag("charset:" + strings.ToUpper(cs))
+		if strings.ToUpper(cs) != "UTF-8" {
+			c.broken = true
+		}
 	}
 	if r.Intn(14) == 0 {
-		ps = append(ps, c20Param{verifh.Pick(r, []string{"foo", "x-ext", "Realm", "NONCE"}), "bar", r.Intn(2) == 0})
+		// RFC 7616 section 3.3: unrecognized parameters are ignored
+		ps = append(ps, c20Param{verifh.Pick(r, []string{"foo", "x-ext", "Realm2", "n0nce"}), verifh.Pick(r, []string{"bar", "b, a\"r", ""}), r.Intn(2) == 0})
 		tag("unknown-param")
+	}
+	if r.Intn(25) == 0 {
+		// RFC 7235 section 2.1: a parameter name MUST only occur once per challenge (names are case-insensitive)
+		d := ps[r.Intn(len(ps))]
+		switch r.Intn(3) {
+		case 0:
+			d.name = strings.ToUpper(d.name)
+		case 1:
+			d.value += "x"
+		}
+		ps = append(ps, d)
+		tag("dup-param")
+		c.broken = true
+	}
+	if r.Intn(15) == 0 {
+		i := r.Intn(len(ps))
+		ps[i].name = verifh.Pick(r, []string{strings.ToUpper(ps[i].name), strings.ToUpper(ps[i].name[:1]) + ps[i].name[1:]})
+		tag("name-case")
 	}
 	// the bad corners of the grammar (rare)
 	if r.Intn(14) == 0 {
@@ -618,8 +782,10 @@ func c20GenChallenge(r *rand.Rand, wire bool) c20Chal {
 		tag("scheme-case")
 	}
 	if !wire && r.Intn(6) == 0 {
-		b.WriteString(verifh.Pick(r, []string{" ", "\t", "\r\n ", "  "}))
+		ws := verifh.Pick(r, []string{" ", "\t", "\r\n ", "  "})
+		b.WriteString(ws)
 		tag("outer-ws")
+		c.loose = c.loose || strings.ContainsAny(ws, "\r\n")
 	}
 	b.WriteString(scheme)
 	b.WriteString(verifh.Pick(r, []string{" ", " ", " ", "  ", " \t"}))
@@ -627,13 +793,19 @@ func c20GenChallenge(r *rand.Rand, wire bool) c20Chal {
 		if i > 0 {
 			b.WriteString(verifh.Pick(r, []string{"", "", " "}))
 			b.WriteString(",")
+			if r.Intn(30) == 0 {
+				b.WriteString(verifh.Pick(r, []string{",", " ,", "\t, ,"}))
+				tag("empty-elem")
+			}
 			switch k := r.Intn(40); {
 			case k == 0:
 				b.WriteString(verifh.Pick(r, []string{"\u00a0", "\u2028", "\u0085", " \u3000", "\u2003 "}))
 				tag("unicode-ws")
+				c.loose = true
 			case k == 1 && !wire:
 				b.WriteString(verifh.Pick(r, []string{"\v", "\f", "\n", "\r\n "}))
 				tag("ascii-ws")
+				c.loose = true
 			default:
 				b.WriteString(verifh.Pick(r, []string{" ", " ", " ", "", "  ", "\t", " \t ", " ", " "}))
 			}
@@ -647,16 +819,25 @@ func c20GenChallenge(r *rand.Rand, wire bool) c20Chal {
 			b.WriteString(verifh.Pick(r, []string{" ", "", " "}))
 		}
 		if p.quoted || !c20IsToken(p.value) {
-			b.WriteString(c20Quote(p.value))
+			if r.Intn(25) == 0 && p.value != "" {
+				b.WriteString(c20QuoteX(r, p.value))
+				tag("quoted-pair")
+			} else {
+				b.WriteString(c20Quote(p.value))
+			}
 		} else {
 			b.WriteString(p.value)
 		}
 	}
 	if !wire && r.Intn(6) == 0 {
-		b.WriteString(verifh.Pick(r, []string{" ", "\t", "\r\n", " \n"}))
+		ws := verifh.Pick(r, []string{" ", "\t", "\r\n", " \n"})
+		b.WriteString(ws)
 		tag("outer-ws")
+		c.loose = c.loose || strings.ContainsAny(ws, "\r\n")
 	}
 	c.raw = b.String()
+	c.lines = []string{c.raw}
+	c.all = []c20Issued{c.is}
 	return c
 }
 
@@ -710,4 +891,62 @@ func c20Opt(p *string) string {
 		return "."
 	}
 	return verifh.Hex(*p)
+}
+
+// ---------------------------------------------------------------- two models, one verdict
+
+// c20Pending is a case whose verdict needs both models: `line` asks the model of the REPAIRED
+// code (Req.DigestAuth, fixes/C20-5), `legacy` the model of the code as found (Req.Digest).
+type c20Pending struct {
+	line, legacy string
+	impl         string
+	ok           bool
+	nontrivial   bool
+	human        string
+}
+
+// c20Judge collects cases and, at flush, classes as the known finding
+// c20-quoted-string-handling exactly those on which the implementation does what the model of
+// the code as found does AND that differs from the repaired behaviour. Everything else is an
+// ordinary case of the repaired model (any other deviation is a violation, before and after the
+// patch is applied).
+type c20Judge struct {
+	s    *verifh.Session
+	pend []c20Pending
+}
+
+func (j *c20Judge) add(p c20Pending) { j.pend = append(j.pend, p) }
+
+func (j *c20Judge) flush() {
+	lines := make([]string, len(j.pend))
+	for i, p := range j.pend {
+		lines[i] = p.line
+	}
+	var ans []string
+	if len(lines) > 0 {
+		ans, _ = verifh.RunModel(lines) // an error is reported by Finish, which runs the lines again
+	}
+	var legacyLines []string
+	var legacyIdx []int
+	for i, p := range j.pend {
+		if ans != nil && ans[i] != p.impl && p.legacy != "" {
+			legacyLines = append(legacyLines, p.legacy)
+			legacyIdx = append(legacyIdx, i)
+		}
+	}
+	class := map[int]string{}
+	if len(legacyLines) > 0 {
+		if la, err := verifh.RunModel(legacyLines); err == nil {
+			for k, i := range legacyIdx {
+				if la[k] == j.pend[i].impl {
+					class[i] = "c20-quoted-string-handling"
+					j.s.Count("known:as-found-parser")
+				}
+			}
+		}
+	}
+	for i, p := range j.pend {
+		j.s.Case(p.line, p.impl, p.ok, class[i], p.nontrivial, p.human)
+	}
+	j.pend = nil
 }
